@@ -1571,8 +1571,15 @@ func (a *align) Entropy(site int, removegaps bool) (float64, error) {
 		}
 	}
 
-	for _, v := range occur {
-		proba := float64(v) / float64(total)
+	// Characters are visited in a fixed order, so that the sum is rounded
+	// the same way at each call (map iteration order is random)
+	keys := make([]int, 0, len(occur))
+	for k := range occur {
+		keys = append(keys, int(k))
+	}
+	sort.Ints(keys)
+	for _, k := range keys {
+		proba := float64(occur[uint8(k)]) / float64(total)
 		entropy -= proba * math.Log(proba)
 	}
 
